@@ -4,6 +4,7 @@ use super::libxcp::{Result, XcpError, AnyError, Reflink, Backup, target_base_of}
 
 pub use super::libxcp::Config;
 /// `Opts` itself is extracted verbatim from src/options.rs (field attributes dropped); these are the types its fields use
+#[derive(Clone, Copy)]
 pub enum Drivers { ParFile, ParBlock }
 pub mod num_cpus {
     #[allow(unused_imports)] use super::*;
@@ -23,3 +24,34 @@ pub assume_specification<T> [<[T]>::split_last] (s: &[T]) -> (r: std::option::Op
 pub fn expand_sources(source_list: &[String], opts: &Opts, Tracked(w): Tracked<&mut World>) -> (r: Result<Vec<PathBuf>>)
     ensures fr_ro(*old(w), *final(w)), final(w).faults == old(w).faults + (if r is Err { 1nat } else { 0 }),
 { unimplemented!() }
+
+// ---- the run phase of main(): driver loading, progress bar, the spawned driver call (R14).  TRUSTED stand-ins.
+pub use super::libxcp::{StatusUpdate, StatusUpdater, ChannelUpdater, JoinHandle, cbc};
+pub trait CopyDriver { }
+#[verifier::external_body]
+pub fn load_driver(driver: Drivers, config: &Arc<Config>) -> (r: Result<Box<dyn CopyDriver>>) { unimplemented!() }
+/// the driver runs on its own thread; what main is checked for is that its result is not dropped
+#[verifier::external_body]
+pub fn spawn__copy(driver: Box<dyn CopyDriver>, sources: Vec<PathBuf>, dest: &PathBuf, stats: Arc<dyn StatusUpdater>, Tracked(w): Tracked<&mut World>) -> (r: JoinHandle<Result<()>>)
+    ensures *final(w) == *old(w),
+{ unimplemented!() }
+pub trait ProgressBar {
+    fn inc_size(&self, size: u64);
+    fn inc(&self, size: u64);
+    fn end(&self);
+}
+pub mod progress {
+    use super::*;
+    #[verifier::external_body]
+    pub fn create_bar(opts: &Opts, size: u64) -> (r: Result<Box<dyn ProgressBar>>) { unimplemented!() }
+}
+impl ChannelUpdater {
+    #[verifier::external_body]
+    pub fn new(config: &Arc<Config>) -> (r: ChannelUpdater) { unimplemented!() }
+    #[verifier::external_body]
+    pub fn rx_channel(&self) -> (r: cbc::Receiver<StatusUpdate>) { unimplemented!() }
+}
+impl StatusUpdater for ChannelUpdater {
+    #[verifier::external_body]
+    fn send(&self, update: StatusUpdate, Tracked(w): Tracked<&mut World>) -> (r: Result<()>) { unimplemented!() }
+}
